@@ -94,7 +94,7 @@ func cmdCheck(args []string) int {
 			continue
 		}
 		cfg := RunCfg{Name: rs.Name, Entry: rs.Entry, DPOR: rs.DPOR, MaxRev: ts.MaxRev, Race: ts.Race, Params: ts.Params, Workers: *workers,
-			NoMapPerm: rs.NoMapPerm, Covers: rs.Covers, StepLimit: ts.StepLimit, Unwind: ts.Unwind, Witness: ts.Witness, MaxWallS: ts.MaxWallS}
+			NoMapPerm: rs.NoMapPerm, NoSelectFork: rs.NoSelectFork, Covers: rs.Covers, StepLimit: ts.StepLimit, Unwind: ts.Unwind, Witness: ts.Witness, MaxWallS: ts.MaxWallS}
 		if ts.DPOR != nil {
 			cfg.DPOR = *ts.DPOR
 		}
